@@ -1,0 +1,152 @@
+//go:build verif
+
+package interp
+
+// Contracts for property C12, second file: unary expressions and composite literals.
+// Checked by /verif/govc. Comments only.
+
+// Unary expressions: the blank identifier is no value; a receive needs a channel that is not send-only;
+// every other operator must be defined on the operand type (table unaryOpPredicates, see op).
+//@ func (check typecheck) unaryExpr(n) (err)
+//@   props C12
+//@   opt safety = off
+//@   opt opaque-calls = *
+//@   opt opaque-havoc = none
+//@   opt fn-values = pure
+//@   opt inline = isChan, isSendChan
+//@   requires [assume] n != nil && len(n.child) >= 1 && n.child[0] != nil && n.child[0].typ != nil
+//@   ensures blank-is-no-value: isBlank(n.child[0]) ==> err != nil
+//@   ensures receive-from-a-receivable-channel: err == nil && n.action == aRecv ==> n.child[0].typ.TypeOf().Kind() == reflect.Chan && n.child[0].typ.TypeOf().ChanDir() != reflect.SendDir
+//@   ensures operator-defined-on-the-operand-type: err == nil && n.action != aRecv ==> has(unaryOpPredicates, n.action) && unaryOpPredicates[n.action] != nil && unaryOpPredicates[n.action](n.child[0].typ.TypeOf())
+//@   canary err == nil ==> n.action == aRecv
+
+// *p: the operand is a pointer.
+//@ func (check typecheck) starExpr(n) (err)
+//@   props C12
+//@   opt safety = off
+//@   opt opaque-calls = *
+//@   opt opaque-havoc = none
+//@   requires [assume] n != nil && n.typ != nil
+//@   ensures operand-is-a-pointer: err == nil ==> n.typ.TypeOf().Kind() == reflect.Ptr
+//@   canary err == nil
+
+// Array and slice literals: every element value is assignable to the element type, a key is a constant
+// index within the array, no index occurs twice, and an array literal has no element at or beyond its length.
+//@ pred elemNode(c): ite(c.kind == keyValueExpr, c.child[1], c)
+//@ func (check typecheck) arrayLitExpr(child, typ) (err)
+//@   props C12
+//@   ints math
+//@   opt safety = off
+//@   opt opaque-calls = *
+//@   opt opaque-havoc = none
+//@   requires [assume] typ != nil && typ.val != nil && typ.val.str != "*unsafe2.dummy" && forall(k, 0, len(child), child[k] != nil && (child[k].kind == keyValueExpr ==> len(child[k].child) == 2 && child[k].child[0] != nil && child[k].child[1] != nil && child[k].child[0] != child[k].child[1]))
+//@   loop 1 index k
+//@   step [next] element-assignable-to-the-element-type: elemNode(child[k]).typ.assignableTo(old(typ))
+//@   step [next] key-is-a-constant-index: child[k].kind == keyValueExpr ==> child[k].child[0].rval.IsValid() && index - 1 == vInt(child[k].child[0].rval)
+//@   step [next] positional-element-follows-the-previous-one: child[k].kind != keyValueExpr ==> index - 1 == old(index)
+//@   step [next] keyed-index-used-once: child[k].kind == keyValueExpr ==> !oldAt(visited, vInt(child[k].child[0].rval)) && visited[index - 1]
+//@   step [next] positional-index-used-once: child[k].kind != keyValueExpr ==> !old(visited[index]) && visited[index - 1]
+//@   step [next] array-index-below-the-length: cat == arrayT ==> index - 1 < length
+//@   canary err == nil
+
+// Map literals: every element is keyed, key and value are assignable to the key and element types, and a
+// constant key occurs once.
+//@ func (check typecheck) mapLitExpr(child, ktyp, vtyp) (err)
+//@   props C12
+//@   opt safety = off
+//@   opt opaque-calls = *
+//@   opt opaque-havoc = none
+//@   requires [assume] ktyp != nil && vtyp != nil && ktyp.str != "*unsafe2.dummy" && vtyp.str != "*unsafe2.dummy" && forall(k, 0, len(child), child[k] != nil && (child[k].kind == keyValueExpr ==> len(child[k].child) == 2 && child[k].child[0] != nil && child[k].child[1] != nil && child[k].child[0] != child[k].child[1]))
+//@   loop 1 index k
+//@   step [next] every-element-is-keyed: child[k].kind == keyValueExpr
+//@   step [next] key-assignable-to-the-key-type: child[k].child[0].typ.assignableTo(ktyp)
+//@   step [next] value-assignable-to-the-element-type: child[k].child[1].typ.assignableTo(vtyp)
+//@   step [next] constant-key-used-once: child[k].child[0].rval.IsValid() ==> !oldAt(visited, child[k].child[0].rval.Interface()) && visited[child[k].child[0].rval.Interface()]
+//@   canary err == nil
+
+// Struct literals: either every element is field:value, naming an existing field once, or none is and
+// there is exactly one value per field, in order; every value is assignable to its field's type.
+//@ trusted func (t *itype) fieldIndex(name) (r)
+//@   pure
+//@ func (check typecheck) structLitExpr(child, typ) (err)
+//@   props C12
+//@   opt safety = off
+//@   opt opaque-calls = *
+//@   opt opaque-havoc = none
+//@   requires [assume] typ != nil && forall(k, 0, len(child), child[k] != nil && (child[k].kind == keyValueExpr ==> len(child[k].child) == 2 && child[k].child[0] != nil && child[k].child[1] != nil && child[k].child[0] != child[k].child[1]))
+//@   requires [assume] forall(k, 0, len(typ.field), typ.field[k].typ != nil && typ.field[k].typ.str != "*unsafe2.dummy")
+//@   requires [assume] forallS(s, typ.fieldIndex(s) < len(typ.field))
+//@   let keyed: len(child) > 0 && child[0].kind == keyValueExpr
+//@   ensures one-value-per-field-when-positional: err == nil && len(child) > 0 && !keyed ==> len(child) == len(typ.field)
+//@   loop 1 index k
+//@   step [next] no-positional-value-among-keyed-ones: child[k].kind == keyValueExpr
+//@   step [next] key-names-a-field: child[k].child[0].ident != "" && typ.fieldIndex(child[k].child[0].ident) >= 0
+//@   step [next] value-assignable-to-the-named-field: child[k].child[1].typ.assignableTo(typ.field[typ.fieldIndex(child[k].child[0].ident)].typ)
+//@   step [next] field-named-once: !old(visited[typ.fieldIndex(child[k].child[0].ident)]) && visited[typ.fieldIndex(child[k].child[0].ident)]
+//@   loop 2 index k
+//@   invariant not-more-values-than-fields-so-far: k <= len(typ.field)
+//@   step [next] no-keyed-value-among-positional-ones: child[k].kind != keyValueExpr
+//@   step [next] not-more-values-than-fields: k < len(typ.field)
+//@   step [next] value-assignable-to-field-k: child[k].typ.assignableTo(typ.field[k].typ)
+//@   canary err == nil
+
+// &x: the operand is addressable. A map element is not (Go spec, Address operators).
+//@ func (check typecheck) addressExpr(n) (err)
+//@   props C12
+//@   opt safety = off
+//@   opt opaque-calls = *
+//@   opt opaque-havoc = none
+//@   opt inline = isArray
+//@   requires [assume] n != nil && len(n.child) >= 1 && n.child[0] != nil
+//@   loop 1
+//@   step [next] a-map-element-is-not-addressable: !(old(c0.kind == indexExpr && len(c0.child) >= 1 && c0.child[0] != nil && c0.child[0].typ != nil && c0.child[0].typ.TypeOf().Kind() == reflect.Map))
+//@   step [next] only-operands-the-spec-lists: old(c0.kind == parenExpr || c0.kind == selectorExpr || c0.kind == starExpr || c0.kind == indexExpr || c0.kind == sliceExpr || c0.kind == compositeLitExpr || c0.kind == identExpr)
+//@   canary err == nil
+
+// Call arguments.  argument: position i of a call with l arguments against the callee type — there must
+// be a parameter for it (the variadic one repeats), a spread argument is allowed only at the variadic
+// parameter and must be a slice whose elements are assignable to it, a typed value must be assignable
+// to the parameter type, and an untyped one is checked as an assignment.
+//@ trusted func getArg(ftyp, i) (r)
+//@   pure
+//@ trusted func (t *itype) numIn() (r)
+//@   pure
+//@ trusted func (t *itype) isVariadic() (r)
+//@   pure
+//@ trusted func valueTOf(rtype) (r)
+//@   pure
+//@ trusted func (p param) Type() (r)
+//@   pure
+//@ func (check typecheck) argument(p, ftyp, i, l, ellipsis) (err)
+//@   props C12
+//@   opt safety = off
+//@   opt opaque-calls = *
+//@   opt opaque-havoc = none
+//@   requires [assume] ftyp != nil && p.nod != nil && (p.typ == nil ==> p.nod.typ != nil)
+//@   requires [assume] getArg(ftyp, i) != nil ==> getArg(ftyp, i).str != "*unsafe2.dummy"
+//@   ensures no-parameter-for-the-argument: getArg(ftyp, i) == nil ==> err != nil
+//@   ensures spread-only-at-the-variadic-parameter: err == nil && ellipsis ==> i == ftyp.numIn() - 1
+//@   ensures spread-argument-is-a-slice-of-assignable-elements: err == nil && ellipsis ==> p.Type().TypeOf().Kind() == reflect.Slice && valueTOf(p.Type().TypeOf().Elem()).assignableTo(getArg(ftyp, i))
+//@   ensures typed-value-assignable-to-the-parameter: err == nil && !ellipsis && p.typ != nil ==> p.typ.assignableTo(getArg(ftyp, i))
+//@   ensures plain-argument-assignable-to-the-parameter: err == nil && !ellipsis && p.typ == nil ==> p.nod.typ.assignableTo(getArg(ftyp, i))
+//@   canary err == nil
+
+// arguments: a spread needs a variadic callee and single values; every argument is checked at its own
+// position (the spread flag only on the last one); and there are enough arguments for the parameters.
+//@ func (check typecheck) arguments(n, child, fun, ellipsis) (err)
+//@   props C12
+//@   ints math
+//@   opt safety = off
+//@   opt opaque-calls = *
+//@   opt opaque-havoc = none
+//@   opt record-calls = argument
+//@   opt ignore-contracts = argument
+//@   requires [assume] n != nil && fun != nil && fun.typ != nil && fun.typ.numIn() >= 0
+//@   ensures spread-needs-a-variadic-callee: err == nil && ellipsis ==> fun.typ.isVariadic()
+//@   ensures [local:params] enough-arguments: err == nil ==> len(params) + ite(fun.typ.isVariadic(), 1, 0) >= fun.typ.numIn()
+//@   ensures [local:params] spread-with-single-values-only: err == nil && ellipsis ==> len(params) <= len(child)
+//@   loop 1 index i
+//@   invariant one-position-per-argument: cnt == i
+//@   step [next] argument-checked-at-its-position: called(argument) && lastArg(argument, 1) == fun.typ && lastArg(argument, 2) == i && lastArg(argument, 3) == len(child) && lastArg(argument, 4) == (ellipsis && i == len(child) - 1) && lastRes(argument, 0) == nil
+//@   step [next] the-argument-itself: lastArg(argument, 0).nod == params[i].nod && lastArg(argument, 0).typ == params[i].typ
+//@   canary err == nil
